@@ -347,7 +347,21 @@ def gen_timeline_op(rng, pick, t0, t1):
     if rng.random() < 0.2:
         opts["showTicks"] = False
     opts["scale"] = rng.choice(["default", "own_time", "own_time"])
-    return ["timeline", rng.choice(["svg", "svg", "tex"]), items, opts]
+    backend = rng.choice(["svg", "svg", "tex"])
+    if backend == "tex" and rng.random() < 0.5:
+        lat = {}
+        if rng.random() < 0.7:
+            lat["reproducible"] = True
+        if rng.random() < 0.3:
+            lat["fontsize"] = rng.choice(["10pt", "12pt"])
+        if rng.random() < 0.3:
+            lat["tickCross"] = True
+        opts["latex"] = lat
+    if rng.random() < 0.15:
+        opts["layerGap"] = rng.choice([30, 100])
+    if rng.random() < 0.15:
+        opts["labella"] = {"maxPos": rng.choice([200, 500]), "algorithm": rng.choice(["overlap", "simple"])}
+    return ["timeline", backend, items, opts]
 
 
 def gen_plan(rng, tier):
